@@ -22,20 +22,28 @@ def main():
     else:
         src, name = sys.argv[1], sys.argv[2]
     patch = os.path.join(src, "patch.diff") if os.path.isdir(src) else src
-    rc, out = sh("git -C /repo status --porcelain")
-    assert out.strip() == "", "/repo not clean: " + out
-    rc, out = sh("git -C /repo apply %s" % patch)
+    import tempfile
+    wt = tempfile.mkdtemp(prefix="benignrun-")
+    os.rmdir(wt)
+    ev = tempfile.mkdtemp(prefix="benignev-")
+    sh("git -C /repo worktree add -q --detach %s HEAD" % wt)
+    rc, out = sh("git apply %s" % os.path.abspath(patch), cwd=wt)
     meta = {"name": name, "kind": "behaviour-preserving refactoring (independent sub-agent)", "patch_applies": rc == 0}
     alarms = {}
     try:
         if rc == 0:
+            env = dict(os.environ, VERIF_REPO=wt, VERIF_EVIDENCE_DIR=ev)
             m = json.load(open(os.path.join(VERIF, "MANIFEST.json")))
             for c in m["checks"]:
-                rc2, o = sh(c["quick_cmd"], cwd=VERIF)
-                if rc2 != 0:
-                    alarms[c["property_id"]] = [l.strip()[:400] for l in o.splitlines() if "VIOLATION" not in l and l.strip()][:8]
+                r2 = subprocess.run(c["quick_cmd"], shell=True, cwd=VERIF, env=env, stdout=subprocess.PIPE, stderr=subprocess.STDOUT, text=True)
+                if r2.returncode != 0:
+                    alarms[c["property_id"]] = [l.strip()[:400] for l in r2.stdout.splitlines() if "VIOLATION" not in l and l.strip()][:8]
+        else:
+            meta["apply_error"] = out[-300:]
     finally:
-        sh("git -C /repo checkout -- .")
+        sh("git -C /repo worktree remove --force %s" % wt)
+        shutil.rmtree(wt, ignore_errors=True)
+        shutil.rmtree(ev, ignore_errors=True)
     meta["alarms"] = alarms
     readme = os.path.join(src, "README.md") if os.path.isdir(src) else None
     if readme and os.path.exists(readme):
